@@ -37,6 +37,11 @@ CHECKS = {
             "Published pots: strictly increasing levels, totals from all players, eligible = non-folded who reached the level listed with "
             "the per-pot amount, strictly shrinking eligible sets, totals sum to all chips; exhaustive small-scope vectors in every "
             "insertion order and every RoundClosed/GameClosed state of real play."),
+    "C08": ("spec/SeatProps.tla C08_positions + late-joiner history tracking, on the real SeatManager's own state graph and histories",
+            "Positions after every successful Next and the late-joiner rule (tracked from the join while the other seats stay put) as TLA+ "
+            "predicates; MCSeat checks the precise model for all histories on 3 seats (4, 5 thorough); the real manager's reachable graph is "
+            "enumerated (3 seats with identities, 5 seats up to identities) and every call validated, plus random and TLC-generated histories. "
+            "One open known finding (F8)."),
     "C10": ("spec/HoldemProps.tla C10_* with HandRank.Admissible/RefKey on every street of real hands (constructed and random decks)",
             "Each published hand is five own cards, admissible (exactly the required hole cards), unbeaten by any admissible selection under "
             "RefKey, with category/strength equal to the evaluator re-run on those cards, stable between streets, and the showdown pays by the "
@@ -53,6 +58,13 @@ CHECKS = {
     "C14": ("spec/HoldemProps.tla C14_* (consumed prefix, counts per street, stability, shuffle is a permutation)",
             "Dealt cards are exactly the consumed top of the deck in dealing order, never change, counts per street, and Start's shuffle "
             "is a permutation; real shuffles and forced decks, both decks, 2 and 4 hole cards."),
+    "C17": ("spec/SeatProps.tla C17_button/C17_insufficient on every Next of the real SeatManager's state graph and histories",
+            "Button moves to the first playable seat clockwise, never stalls or skips; fewer than two able to play => the insufficient-players "
+            "error, never a panic; same exploration as C08."),
+    "C18": ("spec/SeatProps.tla C18_* incl. concurrent Join episodes under a decided schedule (gate hook) + SeatJoinConc.tla",
+            "Join/Leave/any-seat semantics, seated = joins - leaves, no panic on any call incl. out-of-range seats; concurrent joins: one "
+            "goroutine is held between check and commit by the verif gate hook while the others must block on the mutex; the episode "
+            "predicates are order-free; SeatJoinConc model-checks all interleavings of Lock/Check/Commit/Unlock."),
 }
 
 
